@@ -248,7 +248,8 @@ class Program:
                 c = cols[op["k"] % len(cols)]
                 if view(a)["units"][op["k"] % len(cols)][1] in ("text", "onoff"):
                     return
-                t[c].unit = "changed"
+                label = next(x for x in a.columns if str(x) == c)    # labels of a transposed frame are integers
+                t[label].unit = "changed"
                 act = ["AMutate", k0, ["MSetUnit", c, "changed"]]
             elif m == "dest":
                 t.destinations.add("extra_dest")
